@@ -18,6 +18,7 @@ import (
 	"github.com/sarchlab/mgpusim/v4/amd/emu"
 	"github.com/sarchlab/mgpusim/v4/amd/insts"
 	"github.com/sarchlab/mgpusim/v4/amd/kernels"
+	"github.com/sarchlab/mgpusim/v4/amd/timing/cu"
 	"github.com/sarchlab/mgpusim/v4/amd/timing/wavefront"
 )
 
@@ -81,6 +82,8 @@ type collector struct {
 	opcodes  map[string]int
 	total    int
 	cdna3    bool
+	flagged  map[string]bool
+	flags    []string
 	journal  *os.File // full mode: every start / completion is appended at once (survives a crash)
 }
 
@@ -93,7 +96,7 @@ type taskRef struct {
 
 func newCollector(full bool) *collector {
 	return &collector{full: full, launches: map[*kernels.HsaKernelDispatchPacket]int{},
-		recs: map[*kernels.Wavefront]*wfRec{}, byTask: map[string]taskRef{}, opcodes: map[string]int{}}
+		recs: map[*kernels.Wavefront]*wfRec{}, byTask: map[string]taskRef{}, opcodes: map[string]int{}, flagged: map[string]bool{}}
 }
 
 func (c *collector) rec(raw *kernels.Wavefront) *wfRec {
@@ -318,7 +321,44 @@ func (c *collector) memAccessMode(w regReader, in *insts.Inst, timingRule bool) 
 
 // ---- timing: tracer on every timing compute unit (PC at issue)
 
-func (c *collector) StartTask(t tracing.Task) {
+// cuTracer is the tracer attached to one timing compute unit.
+type cuTracer struct {
+	c  *collector
+	cu *cu.ComputeUnit
+}
+
+func (t *cuTracer) StartTask(task tracing.Task)      { t.c.startTask(task, t.cu) }
+func (t *cuTracer) EndTask(task tracing.Task)        { t.c.EndTask(task) }
+func (t *cuTracer) StepTask(task tracing.Task)       {}
+func (t *cuTracer) AddMilestone(m tracing.Milestone) {}
+
+// checkVGPRWindow flags a wavefront whose vector registers do not fit into the
+// per-lane window of the register file it was placed in (its registers then
+// alias the next lane's registers of the co-resident wavefronts).
+func (c *collector) checkVGPRWindow(unit *cu.ComputeUnit, wf *wavefront.Wavefront) {
+	if unit == nil || wf.SIMDID >= len(unit.VRegFile) {
+		return
+	}
+	rf, ok := unit.VRegFile[wf.SIMDID].(*cu.SimpleRegisterFile)
+	if !ok || rf.ByteSizePerLane <= 0 {
+		return
+	}
+	need := wf.VRegOffset + 4*int(wf.CodeObject.WIVgprCount)
+	if need > rf.ByteSizePerLane && !c.flagged["vgpr-window-overflow"] {
+		c.flagged["vgpr-window-overflow"] = true
+		msg := fmt.Sprintf("vgpr-window-overflow %s SIMD %d: wavefront placed at byte offset %d with %d VGPRs needs %d bytes per lane, the register file keeps %d bytes per lane",
+			unit.Name(), wf.SIMDID, wf.VRegOffset, wf.CodeObject.WIVgprCount, need, rf.ByteSizePerLane)
+		c.flags = append(c.flags, msg)
+		if f, err := os.OpenFile("flags.txt", os.O_CREATE|os.O_WRONLY|os.O_APPEND, 0o644); err == nil {
+			fmt.Fprintln(f, msg)
+			f.Close()
+		}
+	}
+}
+
+func (c *collector) StartTask(t tracing.Task) { c.startTask(t, nil) }
+
+func (c *collector) startTask(t tracing.Task, unit *cu.ComputeUnit) {
 	if t.Kind != "inst" {
 		return
 	}
@@ -333,6 +373,9 @@ func (c *collector) StartTask(t tracing.Task) {
 	}
 	c.mu.Lock()
 	defer c.mu.Unlock()
+	if _, seen := c.recs[wf.Wavefront]; !seen {
+		c.checkVGPRWindow(unit, wf)
+	}
 	r := c.rec(wf.Wavefront)
 	ev := c.note(r, wf.PC()-entryPC(wf.Wavefront), in.Inst)
 	if ev != nil {
@@ -366,8 +409,8 @@ func (c *collector) EndTask(t tracing.Task) {
 	}
 }
 
-func (c *collector) StepTask(t tracing.Task)             {}
-func (c *collector) AddMilestone(m tracing.Milestone)    {}
+func (c *collector) StepTask(t tracing.Task)          {}
+func (c *collector) AddMilestone(m tracing.Milestone) {}
 
 // abiFlags lists the optional ABI registers the launched code objects ask for.
 func (c *collector) abiFlags() []string {
